@@ -1,3 +1,4 @@
+pub mod apicommon;
 pub mod checks;
 pub mod dynsampler;
 pub mod graphs;
